@@ -82,8 +82,23 @@ def run(ctx):
         roots.append(r)
         docs.append(U.render(r))
         ctx.dist("generated-" + ("clean" if i % 3 == 0 else "any") + ("-fault" if i % 5 == 4 else ""))
+    # one binding per document, of every kind on every kind of object: the cross-mode relations are sharpest when nothing else is in the document
+    singles = []
+    one = [("QSpacerItem", "orientation: srcB.checked ? Qt.Horizontal : Qt.Vertical"), ("QSpacerItem", "sizeHint { width: srcI.value }"), ("QSpacerItem", "orientation: Qt.Vertical"),
+           ("QVBoxLayout", "spacing: srcI.value"), ("QGridLayout", "columns: srcI.value"), ("QGridLayout", "columns: 2"), ("QVBoxLayout", "contentsMargins.left: srcI.value"),
+           ("QLabel", "text: srcS.text"), ("QLabel", "text: 1 + 2"), ("QLabel", "hasSelectedText: srcB.checked"), ("QLabel", "hasSelectedText: true"), ("QLabel", "geometry { x: srcI.value }"),
+           ("QLabel", "font.bold: srcB.checked"), ("QLabel", "font.bold: true"), ("QComboBox", "model: [srcS.text]"), ("QComboBox", "model: [\"a\"]"), ("QTableView", "model: [\"a\"]"),
+           ("QTableView", "horizontalHeader.visible: srcB.checked"), ("QTableView", "horizontalHeader.visible: false"), ("QTreeView", "header.font.bold: srcB.checked"),
+           ("QLabel", "QLayout.rowStretch: srcI.value"), ("QLabel", "QLayout.rowStretch: 1"), ("QLabel", "QLayout.row: 1"), ("QPushButton", "onClicked: srcS.clear()"),
+           ("QPushButton", "onFooBar: srcS.clear()"), ("QLabel", "fooBar: 1"), ("QLabel", "actions: []"), ("QWidget", "sizePolicy.horizontalPolicy: QSizePolicy.Expanding")]
+    for cls, b in one:
+        singles.append("import qmluic.QtWidgets\nQWidget {\n    QLineEdit { id: srcS }\n    QCheckBox { id: srcB }\n    QSpinBox { id: srcI }\n    QVBoxLayout {\n        %s {\n            %s\n        }\n    }\n}\n" % (cls, b))
+    for b in ("text: srcS.text", "separator: srcB.checked", "separator: true", "checkable: srcB.checked", "onTriggered: srcS.clear()"):
+        singles.append("import qmluic.QtWidgets\nQWidget {\n    QLineEdit { id: srcS }\n    QCheckBox { id: srcB }\n    QAction {\n        id: act\n        %s\n    }\n}\n" % b)
+    for _ in singles:
+        ctx.dist("single-binding")
     corpus = D.corpus()
-    extra = list(corpus)
+    extra = list(corpus) + singles
     for src in corpus:
         for _ in range(6 if ctx.tier == "thorough" else 1):
             extra.append(D.mutate(rng, src))
